@@ -106,7 +106,8 @@ def containers(d):
 
 
 def cname(n):
-    return f"obj{n}"
+    """object names: every third one is written with blanks and brackets (' obj 3 [r3] '): a name is an arbitrary string"""
+    return f"obj{n}" if n % 3 else f" obj {n} [r{n}] "
 
 
 def name_of(ref):
@@ -219,6 +220,8 @@ def run_queries(prog, r, handles, subs):
         try:
             if q['q'] == 'used':
                 dest = "plates" if q['dests'] == 'plates' else [handles[n] for n in q['dests']]
+                if isinstance(dest, list) and len(out) % 3 == 1:
+                    dest = iter(dest)       # `destinations` is documented as an iterable: every third query hands over a one-shot iterator
                 v = r.get_substance_used(subs[q['s']], timeframe=q['stage'], unit=q['unit'], destinations=dest)
                 out.append(('ok', F(v)))
             elif q['q'] == 'flows':
